@@ -99,7 +99,8 @@ def find_reader(repo):
     for c in callers:
         f = repo.function(c, repo.rel('solver', 'fileIO.py'))
         names = {n.func.id for n in ast.walk(f.node) if isinstance(n, ast.Call) and isinstance(n.func, ast.Name) and len(repo.funcs_by_name.get(n.func.id, [])) == 1}
-        names = {x for x in names if repo.funcs_by_name[x][0].relpath == f.relpath}
+        import os as _os
+        names = {x for x in names if _os.path.dirname(repo.funcs_by_name[x][0].relpath) == _os.path.dirname(f.relpath)}       # same package: the tokeniser may live in a module of its own
         cands = names if cands is None else cands & names
     if not cands or len(cands) != 1:
         raise AnalysisError('anchor vanished: the tie-aware tokeniser shared by %s (candidates %s)' % (callers, sorted(cands or [])))
